@@ -58,14 +58,22 @@ class MSys:
         m.has_old_id = self.has_old_id
         return m
 
+    def margin(self, atol):
+        """Half-width, as a fraction of atol, of the band around atol in which the model does not decide: 3 % of the
+        tolerance, widened when the tolerance is so small in the current working units that the rounding of the position
+        arithmetic (a few hundred ulp of the cell size) becomes comparable to it."""
+        size = float(np.abs(self.V).max()) + float(np.abs(self.o).max()) + 1.0
+        return min(0.6, max(0.03, 400 * 2.2e-16 * size / atol))
+
     def matches(self, P, atol):
         """(sure matches, borderline?) of atoms within atol of Cartesian P, periodic."""
         near, border = [], False
+        dl = self.margin(atol)
         for i, r in enumerate(self.rows):
             d = pdist(self.V, self.pbc, P, r['pos'])
-            if d <= 0.6 * atol:
+            if d <= (1 - dl) * atol:
                 near.append(i)
-            elif d < 1.6 * atol:
+            elif d < (1 + dl) * atol:
                 border = True
         return near, border
 
@@ -87,7 +95,7 @@ class PointEngine(Engine):
     expected_probes = ['history_len_ge_3', 'select_by_image', 'select_by_rel', 'select_negative_id', 'refused_absent',
                        'refused_ambiguous', 'refused_occupied', 'refused_occupied_image', 'allowed_nonperiodic_image',
                        'differential_alternatives', 'kwargs_given', 'origin_nonzero_scaled_db', 'one_atom_system',
-                       'integer_pos_input', 'old_id_composed', 'scribbled_results', 'working_units_changed']
+                       'integer_pos_input', 'old_id_composed', 'scribbled_results', 'working_units_changed', 'dumbbell_vector_object_reused']
     rule = ('Each run builds a base System (LAMMPS-oriented or rotated cell, any origin, any periodicity, 1-24 atoms with '
             'pairwise periodic separation >= 0.5 A, optionally one deliberately ambiguous pair 0.3*atol apart, 1-3 atom '
             'types, 0-3 extra per-atom properties of rank 0-2, optionally integer lattice coordinates) and applies a '
@@ -96,7 +104,7 @@ class PointEngine(Engine):
             'negative index, Cartesian position, box-relative position, through a periodic image, exactly or within '
             '0.4*atol; atol default or explicit; property keywords for the new atom. The model decides from the 27 '
             'lattice-image distances whether the site is unique / absent / ambiguous / occupied; sites between 0.6 and '
-            '1.6 atol are not generated. Every successful insertion is repeated through every other applicable selection '
+            '1.6 atol are not generated (since round 5: the undecided band is 3 % of atol, widened only when atol is tiny in the working units in force; offsets just inside and just outside the tolerance are generated along random directions and along face and body diagonals). Every successful insertion is repeated through every other applicable selection '
             'method and the results compared (differential), then the alternative results are scribbled on. After every '
             'operation ALL systems of the history are compared bit-for-bit with their snapshots. One operation in twenty '
             'changes the working length unit (angstrom, nm, um, cm, m) between insertions: stored numbers keep their value, '
@@ -105,7 +113,7 @@ class PointEngine(Engine):
             'refused/ill-formed call or a scribble fired, or >= 2 successful insertions. distinct = distinct (previous '
             'kind, kind, selection, via, outcome, history depth, has-props, pbc pattern) signatures.')
     tolerances = {'copied cells': 'bit-exact', 'requested positions / dumbbell shifts given box-relative': '1e-9 * cell size',
-                  'site match': 'generated <= 0.6*atol or >= 1.6*atol from every atom; nothing in between'}
+                  'site match': 'decided when the periodic distance is <= (1-d)*atol or >= (1+d)*atol, d = max(0.03, 400 eps size/atol) capped at 0.6; nothing is demanded in between'}
     real_components = ['atomman.defect.point (vacancy, interstitial, substitutional, dumbbell, point)',
                        'atomman.core.System / Atoms / Box', 'atomman.core.dvect (compiled from the current tree)']
     stub_components = ['the caller (insertion order, selection method, refused and ill-formed calls, scribbles)']
@@ -240,12 +248,21 @@ class PointEngine(Engine):
                     for d in r.sample(dirs, r.randint(1, len(dirs))):
                         shift[d] = r.choice([-1, 1])
             off = np.zeros(3)
+            dl = m.margin(av)
+
+            def direction():
+                # random, or along a face / body diagonal (where a per-component test and a distance test differ most)
+                if r.random() < 0.4:
+                    u = np.array([r.choice([-1.0, 1.0]) for _ in range(3)])
+                    if r.random() < 0.4:
+                        u[r.randrange(3)] = 0.0
+                else:
+                    u = np.array([r.gauss(0, 1) for _ in range(3)])
+                return u / np.linalg.norm(u)
             if sel == 'near' or r.random() < 0.2:
-                u = np.array([r.gauss(0, 1) for _ in range(3)])
-                off = u / np.linalg.norm(u) * 0.4 * av
+                off = direction() * r.choice([0.4, 0.4, max(0.4, 1 - 2 * dl)]) * av
             if scen == 'absent':
-                u = np.array([r.gauss(0, 1) for _ in range(3)])
-                off = u / np.linalg.norm(u) * r.choice([2.5 * av, 0.2])
+                off = direction() * r.choice([2.5 * av, 0.2, (1 + 2 * dl) * av, (1 + 2 * dl) * av, 1.6 * av])
             P = m.rows[site]['pos'] + off + np.array(shift) @ m.V
             op.update(site=site, sel=sel, P=P.tolist(), rel=geom.cart_to_rel(m.V, m.o, P).tolist(), shift=shift)
         if kind in ('i', 's', 'db'):
@@ -263,6 +280,11 @@ class PointEngine(Engine):
             u = np.array([r.gauss(0, 1) for _ in range(3)])
             op['db'] = (u / np.linalg.norm(u) * r.uniform(0.05, 0.3)).tolist()
             op['db_scale'] = r.random() < 0.5
+            if st.get('last_db') and r.random() < 0.4:
+                # the caller keeps one dumbbell vector (one array object) for several insertions
+                op['db'], op['db_scale'] = st['last_db']
+                op['db_same_object'] = True
+            st['last_db'] = (list(op['db']), op['db_scale'])
         return op
 
     # ------------------------------------------------------------------
@@ -387,6 +409,11 @@ class PointEngine(Engine):
             if scaled:
                 call_kw['scale'] = True
                 call_kw['db_vect'] = self._fmt(np.linalg.solve(m.V.T, db), 'array')     # box-relative components
+                key = (tuple(op['db']), m.V.tobytes())
+                if op.get('db_same_object') and st.get('db_pass') and st['db_pass'][0] == key:
+                    call_kw['db_vect'] = st['db_pass'][1]                               # the very same ndarray as last time
+                    ctx.probe('dumbbell_vector_object_reused')
+                st['db_pass'] = (key, call_kw['db_vect'])
                 if float(np.abs(m.o).max()) > 0:
                     ctx.probe('origin_nonzero_scaled_db')
             else:
